@@ -767,13 +767,41 @@ class Normaliser:
             return None
         cands: dict[str, tuple] = {}
         assigns: dict[str, ast.Assign] = {}
+        objs: dict[str, ast.AST] = {}
         for x in ast.walk(fn):
             if isinstance(x, ast.Assign) and len(x.targets) == 1 and isinstance(x.targets[0], ast.Name) and stores.get(x.targets[0].id) == 1:
+                if isinstance(x.value, ast.Attribute) and stable_obj(x.value) and isinstance(x.value.value, (ast.Name, ast.Attribute)):
+                    # running = self._running  (an attribute nothing re-binds): the local IS that object, wherever it is used
+                    objs[x.targets[0].id] = x.value
+                    assigns[x.targets[0].id] = x
+                    continue
                 c = callee_of(x.value)
                 if c is not None:
                     cands[x.targets[0].id] = c
                     assigns[x.targets[0].id] = x
-        if not cands:
+        if objs:
+            for x in ast.walk(fn):
+                if isinstance(x, ast.Name) and isinstance(x.ctx, ast.Load) and x.id in objs:
+                    a = assigns[x.id]
+                    if (x.lineno, x.col_offset) <= (a.lineno, a.col_offset):
+                        objs.pop(x.id, None)
+            # nested functions capture the name: leave those alone
+            for inner in ast.walk(fn):
+                if inner is not fn and isinstance(inner, (ast.FunctionDef, ast.AsyncFunctionDef, ast.Lambda)):
+                    for x in ast.walk(inner):
+                        if isinstance(x, ast.Name) and x.id in objs:
+                            objs.pop(x.id, None)
+        if objs:
+            class _O(ast.NodeTransformer):
+                def visit_Name(self_, x):  # noqa: N805
+                    if isinstance(x.ctx, ast.Load) and x.id in objs:
+                        return ast.copy_location(copy.deepcopy(objs[x.id]), x)
+                    return x
+            _O().visit(fn)
+            ast.fix_missing_locations(fn)
+            for _ in objs:
+                self.hit("object-alias-inlined")
+        if not cands and not objs:
             return
         # every load of the alias must be the function of a call, later in the text than the binding
         parents: dict[int, ast.AST] = {}
@@ -786,8 +814,7 @@ class Normaliser:
                 a = assigns[x.id]
                 if not (isinstance(par, ast.Call) and par.func is x) or (x.lineno, x.col_offset) <= (a.lineno, a.col_offset):
                     cands.pop(x.id, None)
-        # an alias defined in terms of another alias: resolve in order of appearance
-        if not cands:
+        if not cands and not objs:
             return
 
         class _R(ast.NodeTransformer):
@@ -800,7 +827,7 @@ class Normaliser:
                     node.keywords = [copy.deepcopy(k) for k in k0 if k.arg not in {kk.arg for kk in node.keywords}] + list(node.keywords)
                     ast.fix_missing_locations(node)
                 return node
-        doomed = {id(assigns[n]) for n in cands}
+        doomed = {id(assigns[n]) for n in list(cands) + list(objs)}
 
         def strip(block: list[ast.stmt]) -> list[ast.stmt]:
             out = []
